@@ -197,7 +197,7 @@ def run(p, report, tier):
                    detail=f"size from len({sorted(lens)}) ; population `{popt}`" if ok else
                    f"the subset size is computed from len({sorted(lens - aliases)}) but the draw is from `{popt}`: the subset "
                    "does not have the documented size")
-    if n_ratio < 3:
+    if n_ratio < 1:
         raise AnalysisError("SubSamplingWrapper.query: subset draws vanished")
     # ---------------- R20.3
     sa = p.get_class("SingleAnnotatorWrapper")
@@ -335,6 +335,16 @@ def check_subsampling_translation(p, report, sw, ent, tree, rule):
     for n in ast.walk(sw.node):
         if isinstance(n, ast.Assign) and isinstance(n.value, ast.Call) and c01.callname(n.value) == "choice":
             drawn |= {t.id for t in n.targets if isinstance(t, ast.Name)}
+    # plain aliases of the drawn positions (`positions = subsample`)
+    grew = True
+    while grew:
+        grew = False
+        for n in ast.walk(sw.node):
+            if isinstance(n, ast.Assign) and isinstance(n.value, ast.Name) and n.value.id in drawn:
+                for t in n.targets:
+                    if isinstance(t, ast.Name) and t.id not in drawn:
+                        drawn.add(t.id)
+                        grew = True
     tr2 = [n for n in ast.walk(sw.node) if isinstance(n, ast.Assign) and isinstance(n.value, ast.Subscript)
            and isinstance(n.value.value, ast.Name) and n.value.value.id in drawn
            and (names_in(n.value.slice) & pick_names)]
